@@ -276,7 +276,8 @@ def abstract_rename(model: PyModel, src: str, dest: str):
                 return [(None, st)]
             return [(Opaque("zfile." + name, recv.tag), st)]
         if recv.cls.startswith("ext:"):
-            return [(None if "ogger" in recv.cls or "logrus" in recv.cls else Term(recv.cls[4:] + "." + name, tuple(fz(I, a, st) for a in args)), st)]
+            is_log = ("ogger" in recv.cls or "logrus" in recv.cls) and name in ("debug", "info", "warning", "warn", "error", "exception", "critical", "log", "bind")
+            return [(None if is_log else Term(recv.cls[4:] + "." + name, tuple(fz(I, a, st) for a in args)), st)]
         return None
 
     def all_files(I, args, kwargs, st, node):
